@@ -154,6 +154,34 @@ func (i *interpreter) trimSpace(s value) (value, value, value) {
 		if p.edgeSafe(segs[lo], true) && p.edgeSafe(segs[hi-1], false) {
 			return concatOf(segs[:lo]), mid, concatOf(segs[hi:])
 		}
+		// a non-empty block known to be trimmed, followed by segments that may be
+		// empty but cannot end in a white-space byte: nothing is trimmed on either side
+		for j := hi; j > lo; j-- {
+			blk, ok := concatOf(segs[lo:j]).(*Sym)
+			if !ok || !p.facts["class|trimmed|"+blk.e] {
+				continue
+			}
+			nonEmpty := false
+			for _, sg := range segs[lo:j] {
+				if c, ok := sg.(string); ok && c != "" {
+					nonEmpty = true
+				} else if y, ok := sg.(*Sym); ok {
+					if l, _ := p.ivOf(p.mkLen(y)); l != nil && l.Sign() > 0 {
+						nonEmpty = true
+					}
+				}
+			}
+			tailOK := true
+			for _, sg := range segs[j:hi] {
+				if !p.noEdgeByte(sg, false) {
+					tailOK = false
+				}
+			}
+			if nonEmpty && tailOK {
+				return concatOf(segs[:lo]), mid, concatOf(segs[hi:])
+			}
+			break
+		}
 		if c, ok := mid.(string); ok && stringInClass(c, "trimmed") {
 			return concatOf(segs[:lo]), c, concatOf(segs[hi:])
 		}
@@ -211,6 +239,36 @@ func (p *Path) edgeSafe(sg interface{}, first bool) bool {
 		if p.facts["class|trimmed|"+sg.e] {
 			return true
 		}
+		a, ok := p.alpha[sg.e]
+		if !ok {
+			return false
+		}
+		for b := 0; b < 256; b++ {
+			if a[b] && inSet(byte(b), excl) {
+				return false
+			}
+		}
+		return true
+	}
+	return false
+}
+
+// noEdgeByte: no byte the (possibly empty) segment can hold belongs to the
+// first (or last) byte of a white-space rune's encoding.
+func (p *Path) noEdgeByte(sg interface{}, first bool) bool {
+	excl := trimLastExcl
+	if first {
+		excl = trimFirstExcl
+	}
+	switch sg := sg.(type) {
+	case string:
+		for k := 0; k < len(sg); k++ {
+			if inSet(sg[k], excl) {
+				return false
+			}
+		}
+		return true
+	case *Sym:
 		a, ok := p.alpha[sg.e]
 		if !ok {
 			return false
